@@ -323,7 +323,7 @@ def _create_table(sql, c):
     cols = []
     pks = []
     fks = []
-    for part in _split_top_commas(body):
+    for part in (_split_top_commas(body) if body else ()):       # an empty body: a table without columns (API-built models)
         if not part:
             raise DDLError('empty table element')
         if _is(part[0], 'word', 'PRIMARY'):
